@@ -12,7 +12,6 @@ import (
 	"os"
 	"os/exec"
 	"path/filepath"
-	"regexp"
 	"sort"
 	"strconv"
 	"strings"
@@ -88,13 +87,13 @@ func writeReplay(dir string, rs replaySpec) string {
 	return p
 }
 
-var replayLineRe = regexp.MustCompile(`^VERIF-REPLAY file=(\S+) status=(\S+) stopped=("(?:[^"\\]|\\.)*") failures=(\[.*\]) observed=(\[.*\])$`)
-
 type nativeResult struct {
-	Status   string
-	Stopped  string
-	Failures string
-	Observed string
+	File     string   `json:"file"`
+	Status   string   `json:"status"`
+	Stopped  string   `json:"stopped"`
+	Failures []string `json:"failures"`
+	Observed []string `json:"observed"`
+	Covers   []string `json:"covers"`
 }
 
 // nativeReplay runs the replay files of one package natively (real build of
@@ -136,16 +135,13 @@ func nativeReplay(pkgDir string, files []string) (map[string]nativeResult, strin
 		"VERIF_REPLAY="+strings.Join(files, ","), "GOCACHE="+goCache())
 	out, err := cmd.CombinedOutput()
 	sc := bufio.NewScanner(strings.NewReader(string(out)))
-	sc.Buffer(make([]byte, 1<<20), 1<<24)
+	sc.Buffer(make([]byte, 1<<20), 1<<26)
 	for sc.Scan() {
 		line := strings.TrimSpace(sc.Text())
-		if m := replayLineRe.FindStringSubmatch(line); m != nil {
-			st, _ := strconv.Unquote(m[3])
-			res[m[1]] = nativeResult{Status: m[2], Stopped: st, Failures: m[4], Observed: m[5]}
-		} else if strings.HasPrefix(line, "VERIF-REPLAY") {
-			f := strings.Fields(line)
-			if len(f) >= 3 {
-				res[strings.TrimPrefix(f[1], "file=")] = nativeResult{Status: strings.TrimPrefix(f[2], "status=")}
+		if strings.HasPrefix(line, "VERIF-REPLAY-JSON ") {
+			var nr nativeResult
+			if json.Unmarshal([]byte(strings.TrimPrefix(line, "VERIF-REPLAY-JSON ")), &nr) == nil {
+				res[nr.File] = nr
 			}
 		}
 	}
@@ -266,10 +262,16 @@ func cmdCheck(args []string) int {
 	if tier == "thorough" {
 		timeout = 60000
 	}
-	opts := RunOpts{MaxPaths: 200000, MaxInstr: 20_000_000, TimeoutMs: timeout, Solver: "z3", Workers: 16,
+	opts := RunOpts{WitnessPerJob: 2, MaxPaths: 200000, MaxInstr: 20_000_000, TimeoutMs: timeout, Solver: "z3", Workers: 16,
 		Verbose: os.Getenv("RUXSYM_VERBOSE") != ""}
 	if s := os.Getenv("RUXSYM_SOLVER"); s != "" {
 		opts.Solver = s
+	}
+	if n := 30/len(jobs) + 1; n > opts.WitnessPerJob {
+		opts.WitnessPerJob = n
+	}
+	if tier == "thorough" {
+		opts.WitnessPerJob = 130/len(jobs) + 2
 	}
 	results := runJobs(w, jobs, opts)
 
@@ -371,7 +373,7 @@ func cmdCheck(args []string) int {
 					continue
 				}
 				fmt.Printf("VIOLATION property=%s replay=%s\n", prop, f)
-				fmt.Printf("  harness=%s cfg=%d at %s: %s\n  native: %s\n", o.Harness, o.Cfg, o.Pos, o.Msg, r.Failures)
+				fmt.Printf("  harness=%s cfg=%d at %s: %s\n  native: %q\n", o.Harness, o.Cfg, o.Pos, o.Msg, r.Failures)
 				nViol++
 				if len(violSamples) < 5 {
 					violSamples = append(violSamples, map[string]any{"harness": o.Harness, "msg": o.Msg, "pos": o.Pos, "inputs": o.Model})
@@ -380,6 +382,82 @@ func cmdCheck(args []string) int {
 				fmt.Printf("SPURIOUS property=%s harness=%s msg=%q (model did not reproduce natively: %s stopped=%q)\n", prop, o.Harness, o.Msg, r.Status, r.Stopped)
 				nSpurious++
 				os.Remove(f)
+			}
+		}
+	}
+
+	// translation validation: witnesses of completed paths are executed natively
+	// (real build) and by the engine in concrete mode; assertion outcomes,
+	// cover points and observations must agree.
+	nValidated, nMismatch := 0, 0
+	{
+		maxW := 24
+		if tier == "thorough" {
+			maxW = 120
+		}
+		if v := os.Getenv("RUXSYM_WITNESSES"); v != "" {
+			maxW, _ = strconv.Atoi(v)
+		}
+		var all []Witness
+		for round := 0; len(all) < maxW; round++ {
+			added := false
+			for _, r := range results {
+				if round < len(r.Witnesses) && len(all) < maxW {
+					all = append(all, r.Witnesses[round])
+					added = true
+				}
+			}
+			if !added {
+				break
+			}
+		}
+		if len(all) > 0 {
+			tmpw, _ := os.MkdirTemp("", "ruxsym-wit-")
+			defer os.RemoveAll(tmpw)
+			wByPkg := map[string][]string{}
+			wOf := map[string]Witness{}
+			for _, wt := range all {
+				f := writeReplay(tmpw, replaySpec{Property: prop, Package: wt.Job.Pkg, Harness: wt.Job.Harness, Cfg: wt.Job.Cfg, Params: wt.Job.Params, Vals: wt.Vec})
+				wByPkg[wt.Job.Pkg] = append(wByPkg[wt.Job.Pkg], f)
+				wOf[f] = wt
+			}
+			sol, err := NewSolver(opts.Solver, opts.TimeoutMs)
+			if err == nil {
+				defer sol.Close()
+				for pkg, files := range wByPkg {
+					nres, out, err := nativeReplay(pkg, files)
+					if err != nil {
+						fmt.Fprintln(os.Stderr, "validation: native run failed:", err)
+						if os.Getenv("RUXSYM_VERBOSE") != "" {
+							fmt.Fprintln(os.Stderr, out)
+						}
+						continue
+					}
+					for _, f := range files {
+						wt := wOf[f]
+						nr, ok := nres[f]
+						if !ok {
+							continue
+						}
+						var pend [][]int
+						st := newJobStats()
+						cex := w.runPath(wt.Job, sol, nil, &pend, st, opts, wt.Vec)
+						agree := len(nr.Failures) == 0 && len(cex.concFails) == 0 && nr.Stopped == "" && len(st.Unsupported) == 0 &&
+							strings.Join(cex.coverSeq, "|") == strings.Join(wt.Covers, "|")
+						if !cex.modeSplit {
+							// harnesses that assert differently natively (verifSymbolic()) are compared on assertion outcomes only
+							agree = agree && strings.Join(nr.Covers, "|") == strings.Join(cex.coverSeq, "|") &&
+								strings.Join(nr.Observed, "|") == strings.Join(cex.events, "|")
+						}
+						if agree {
+							nValidated++
+						} else {
+							nMismatch++
+							fmt.Printf("VALIDATION-MISMATCH property=%s harness=%s cfg=%d native{stopped=%q failures=%q covers=%q observed=%q} engine{failures=%q covers=%q observed=%q unsupported=%v} symbolic{covers=%q} vector=%s\n",
+								prop, wt.Job.Harness, wt.Job.Cfg, nr.Stopped, nr.Failures, nr.Covers, nr.Observed, cex.concFails, cex.coverSeq, cex.events, st.Unsupported, wt.Covers, vecString(wt.Vec))
+						}
+					}
+				}
 			}
 		}
 	}
@@ -418,7 +496,9 @@ func cmdCheck(args []string) int {
 		"coverage": map[string]any{
 			"states":                        total.Paths,
 			"transitions":                   total.Instrs,
-			"traces_validated_against_impl": nViol + nSpurious + nKnown,
+			"traces_validated_against_impl": nValidated,
+			"validation_mismatches":         nMismatch,
+			"counterexamples_replayed":      nViol + nSpurious + nKnown,
 			"samples":                       samples,
 			"obligations":                   total.Obligations,
 			"discharged":                    total.Discharged,
@@ -439,7 +519,7 @@ func cmdCheck(args []string) int {
 			"load_s":                        w.loadDur.Seconds(),
 			"exhaustive":                    false,
 			"explanation": "bounded symbolic execution of the SSA of /repo's current working tree; every obligation is pc ∧ ¬assertion checked by the SMT solver; " +
-				"traces_validated_against_impl counts counterexample vectors replayed against the native build in this run",
+				"traces_validated_against_impl counts path witnesses (solver models of completed paths) executed both natively (real build of /repo) and by the engine in concrete mode with identical assertion outcomes, cover points and observations",
 		},
 	}
 	os.MkdirAll(filepath.Join(verifDir, "evidence"), 0o755)
@@ -452,4 +532,13 @@ func cmdCheck(args []string) int {
 		return 1
 	}
 	return 0
+}
+
+
+func vecString(v []ReplayVal) string {
+	b, _ := json.Marshal(v)
+	if len(b) > 600 {
+		return string(b[:600]) + "…"
+	}
+	return string(b)
 }
